@@ -296,3 +296,169 @@ func HarnessC16Tracer() {
 	vndReach("joined")
 	vndAssert(sdk.starts == before+2, "spans-started-after-installation-reach-the-sdk")
 }
+
+// ---- the remaining instrument kinds
+
+func (m *c16Meter) Float64UpDownCounter(n string, _ ...metric.Float64UpDownCounterOption) (metric.Float64UpDownCounter, error) {
+	m.mk(n)
+	return &c16FInst2{c16FInst: c16FInst{sdk: m.sdk, name: n}}, nil
+}
+func (m *c16Meter) Float64Histogram(n string, _ ...metric.Float64HistogramOption) (metric.Float64Histogram, error) {
+	m.mk(n)
+	return &c16FInst2{c16FInst: c16FInst{sdk: m.sdk, name: n}}, nil
+}
+
+type c16FInst2 struct {
+	embedded.Float64UpDownCounter
+	embedded.Float64Histogram
+	c16FInst
+}
+
+// observable instruments of the recording SDK
+type c16IObs struct {
+	metric.Int64Observable
+	embedded.Int64ObservableCounter
+	embedded.Int64ObservableUpDownCounter
+	embedded.Int64ObservableGauge
+	name string
+}
+
+type c16FObs struct {
+	metric.Float64Observable
+	embedded.Float64ObservableCounter
+	embedded.Float64ObservableUpDownCounter
+	embedded.Float64ObservableGauge
+	name string
+}
+
+func (m *c16Meter) Int64ObservableCounter(n string, _ ...metric.Int64ObservableCounterOption) (metric.Int64ObservableCounter, error) {
+	m.mk(n)
+	return &c16IObs{name: n}, nil
+}
+func (m *c16Meter) Int64ObservableUpDownCounter(n string, _ ...metric.Int64ObservableUpDownCounterOption) (metric.Int64ObservableUpDownCounter, error) {
+	m.mk(n)
+	return &c16IObs{name: n}, nil
+}
+func (m *c16Meter) Int64ObservableGauge(n string, _ ...metric.Int64ObservableGaugeOption) (metric.Int64ObservableGauge, error) {
+	m.mk(n)
+	return &c16IObs{name: n}, nil
+}
+func (m *c16Meter) Float64ObservableCounter(n string, _ ...metric.Float64ObservableCounterOption) (metric.Float64ObservableCounter, error) {
+	m.mk(n)
+	return &c16FObs{name: n}, nil
+}
+func (m *c16Meter) Float64ObservableUpDownCounter(n string, _ ...metric.Float64ObservableUpDownCounterOption) (metric.Float64ObservableUpDownCounter, error) {
+	m.mk(n)
+	return &c16FObs{name: n}, nil
+}
+func (m *c16Meter) Float64ObservableGauge(n string, _ ...metric.Float64ObservableGaugeOption) (metric.Float64ObservableGauge, error) {
+	m.mk(n)
+	return &c16FObs{name: n}, nil
+}
+
+// a meter of the recording SDK that also remembers which instruments callbacks
+// were registered for
+type c16ObsMeter struct {
+	c16Meter
+	regInsts *[]metric.Observable
+}
+
+func (m *c16ObsMeter) RegisterCallback(f metric.Callback, insts ...metric.Observable) (metric.Registration, error) {
+	*m.regInsts = append(*m.regInsts, insts...)
+	return m.c16Meter.RegisterCallback(f, insts...)
+}
+
+type c16ObsSDK struct {
+	*c16SDK
+	regInsts []metric.Observable
+}
+
+func (s *c16ObsSDK) Meter(name string, o ...metric.MeterOption) metric.Meter {
+	s.c16SDK.Meter(name, o...)
+	return &c16ObsMeter{c16Meter{sdk: s.c16SDK}, &s.regInsts}
+}
+
+func c16MakeObservable(m metric.Meter, k int, name string) metric.Observable {
+	switch k {
+	case 0:
+		i, _ := m.Int64ObservableCounter(name)
+		return i
+	case 1:
+		i, _ := m.Int64ObservableUpDownCounter(name)
+		return i
+	case 2:
+		i, _ := m.Int64ObservableGauge(name)
+		return i
+	case 3:
+		i, _ := m.Float64ObservableCounter(name)
+		return i
+	case 4:
+		i, _ := m.Float64ObservableUpDownCounter(name)
+		return i
+	default:
+		i, _ := m.Float64ObservableGauge(name)
+		return i
+	}
+}
+
+func c16ObsName(o metric.Observable) string {
+	switch x := o.(type) {
+	case *c16IObs:
+		return x.name
+	case *c16FObs:
+		return x.name
+	}
+	return "<not an SDK instrument>"
+}
+
+// ---- C16.kinds: the two synchronous float kinds not covered by C16.seq and the
+// six observable kinds: created before or after installation, the SDK gets each
+// exactly once, and a callback registered for an observable reaches the SDK
+// with the SDK's own instrument
+func HarnessC16Kinds() {
+	mp := &meterProvider{}
+	sdk := &c16ObsSDK{c16SDK: newC16SDK()}
+	m := mp.Meter("m")
+	ctx := context.Background()
+	if vndChoice(2) == 0 {
+		// synchronous float kinds
+		var rec func()
+		if vndChoice(2) == 0 {
+			i, _ := m.Float64UpDownCounter("i")
+			rec = func() { i.Add(ctx, 1) }
+		} else {
+			i, _ := m.Float64Histogram("i")
+			rec = func() { i.Record(ctx, 1) }
+		}
+		rec()
+		mp.setDelegate(sdk)
+		vndReach("sync")
+		vndAssert(sdk.created["i"] == 1, "instrument-created-in-sdk-exactly-once")
+		vndAssert(sdk.adds["i"] == 0, "measurements-before-installation-are-not-forwarded")
+		rec()
+		vndAssert(sdk.adds["i"] == 1, "instrument-forwards-after-installation")
+		return
+	}
+	k := vndChoice(6)
+	before := vndChoice(2) == 1 // the callback is registered before installation
+	o := c16MakeObservable(m, k, "o")
+	cb := func(context.Context, metric.Observer) error { return nil }
+	var reg metric.Registration
+	if before {
+		reg, _ = m.RegisterCallback(cb, o)
+	}
+	mp.setDelegate(sdk)
+	if !before {
+		reg, _ = m.RegisterCallback(cb, o)
+	}
+	vndReach("observable")
+	vndAssert(sdk.created["o"] == 1, "instrument-created-in-sdk-exactly-once")
+	vndAssert(sdk.regCalls == 1, "each-callback-registered-with-sdk-exactly-once-unless-unregistered")
+	vndAssert(len(sdk.regInsts) == 1 && c16ObsName(sdk.regInsts[0]) == "o", "callback-registered-for-the-sdk-instrument")
+	reg.Unregister()
+	vndAssert(sdk.callbacks == 0, "unregister-after-installation-reaches-sdk-once")
+	// an observable created after installation goes straight to the SDK
+	o2 := c16MakeObservable(mp.Meter("m2"), k, "p")
+	m.RegisterCallback(cb, o2)
+	vndAssert(sdk.created["p"] == 1 && len(sdk.regInsts) == 2 && c16ObsName(sdk.regInsts[1]) == "p", "instrument-created-after-installation-forwards")
+}
